@@ -49,6 +49,13 @@ Fixpoint oexpr_close (a b : oexpr (T:=Q)) : bool :=
   | OVecSum a1 v, OVecSum b1 w | OLVec a1 v, OLVec b1 w | ORVec a1 v, ORVec b1 w
   | OFLVec a1 v, OFLVec b1 w => oexpr_close a1 b1 && qsc v w
   | OLScal a1 s, OLScal b1 t | ORScal a1 s, ORScal b1 t => oexpr_close a1 b1 && qc s t
+  | OBroadcast l, OBroadcast m | OReduction l, OReduction m | ODiagonal l, ODiagonal m =>
+      (fix go (l m : list (oexpr (T:=Q))) : bool :=
+         match l, m with
+         | [], [] => true
+         | a1 :: l', b1 :: m' => oexpr_close a1 b1 && go l' m'
+         | _, _ => false
+         end) l m
   | _, _ => false
   end.
 
